@@ -10,6 +10,7 @@ From stdpp Require Import gmap.
 From Coq Require Import NArith Bool.
 From RV Require Import Ingress.IngressModel Rib.RibModel Bmp.BmpModel.
 From RV Require Import Filter.FilterLang Filter.FilterGlue Filter.FilterUnits Filter.FilterProofs.
+From RV Require Pipe.PipeModel E2e.E2eModel E2e.E2eProofs.
 Local Open Scope N_scope.
 
 (* ---- the verdict decides the outcome ---- *)
@@ -252,6 +253,60 @@ Theorem C10_bmp_legacy_aspath_refuted :
   eval_spec FBmp legacy_witness_prog legacy_witness_input = (false, []).
 Proof. exact eval_legacy_refuted. Qed.
 Print Assumptions C10_bmp_legacy_aspath_refuted.
+
+(* ---- which script a unit's filter comes from (E2e/E2eModel.v; tied to the code by the `e2e` engine: a real
+   pipeline started with a roto_script, the script edited / renamed / removed, reloads that start a second RIB
+   unit) ----
+   [e_run lg (e_init s0) h] = the running pipeline after start-up with the script s0 and the history h of traffic,
+   edits and reloads ([lg] = true: the code before compile_roto_script forgot a script that is no longer
+   configured); [scripts_named s0 h] = the script the configuration named at each reload of h. *)
+
+(* the filter of every RIB unit is the rib-in-pre of the script that the configuration named when the unit was
+   started: a unit started by a reload follows the script of THAT reload, not the start-up script *)
+Theorem C10_unit_filter_is_script_of_its_load : forall s0 h,
+  let st := E2eModel.e_run false (E2eModel.e_init s0) h in
+  let named := s0 :: E2eModel.scripts_named s0 h in
+  named !! E2eModel.ru_born (E2eModel.es_rib st) = Some (E2eModel.ru_filter (E2eModel.es_rib st)) /\
+  forall r, E2eModel.es_rib2 st = Some r -> named !! E2eModel.ru_born r = Some (E2eModel.ru_filter r).
+Proof. exact E2eProofs.unit_filter_is_script_of_its_load. Qed.
+Print Assumptions C10_unit_filter_is_script_of_its_load.
+
+(* a unit that runs since start-up filters with the start-up script whatever is edited and reloaded later *)
+Theorem C10_first_unit_keeps_startup_filter : forall lg s0 h,
+  E2eModel.ru_filter (E2eModel.es_rib (E2eModel.e_run lg (E2eModel.e_init s0) h)) = s0.
+Proof. exact E2eProofs.first_unit_keeps_startup_filter. Qed.
+Print Assumptions C10_first_unit_keeps_startup_filter.
+
+(* a missing filter accepts everything, end to end: without a script, or with a script that has no rib-in-pre
+   filter, the RIB unit holds exactly the RIB of the pipeline model (Pipe/PipeModel.v), after every history *)
+Theorem C10_no_filter_is_pipeline_model : forall lg s0 h,
+  s0 = E2eModel.SNone \/ s0 = E2eModel.SNoRibFilter ->
+  E2eModel.ru_rib (E2eModel.es_rib (E2eModel.e_run lg (E2eModel.e_init s0) h)) =
+  PipeModel.w_rib (E2eModel.es_w (E2eModel.e_run lg (E2eModel.e_init s0) h)).
+Proof. exact E2eProofs.no_filter_is_pipeline_model. Qed.
+Print Assumptions C10_no_filter_is_pipeline_model.
+
+(* a rejected route changes nothing in the RIB, end to end: after every history no RIB unit holds a record - active
+   or withdrawn - for a prefix its filter rejects *)
+Theorem C10_rejected_prefix_never_stored : forall lg s0 h,
+  let st := E2eModel.e_run lg (E2eModel.e_init s0) h in
+  (forall k, is_Some (recs (E2eModel.ru_rib (E2eModel.es_rib st)) !! k) ->
+     E2eModel.script_rejects (E2eModel.ru_filter (E2eModel.es_rib st)) (k_pfx k) = false) /\
+  (forall r k, E2eModel.es_rib2 st = Some r -> is_Some (recs (E2eModel.ru_rib r) !! k) ->
+     E2eModel.script_rejects (E2eModel.ru_filter r) (k_pfx k) = false).
+Proof. exact E2eProofs.rejected_prefix_never_stored. Qed.
+Print Assumptions C10_rejected_prefix_never_stored.
+
+(* non-vacuity: started with a script that rejects prefix 7; the operator edits it to reject prefix 8 and adds a
+   second RIB unit; after the reload the new unit filters with the new script, the first one with the old one *)
+Example C10_script_example :
+  let st := E2eModel.e_run false (E2eModel.e_init (E2eModel.SRejectPfx 7))
+              [E2eModel.EScript (E2eModel.SRejectPfx 8); E2eModel.EUnit 1; E2eModel.EReload] in
+  E2eModel.ru_filter (E2eModel.es_rib st) = E2eModel.SRejectPfx 7 /\
+  option_map E2eModel.ru_filter (E2eModel.es_rib2 st) = Some (E2eModel.SRejectPfx 8) /\
+  option_map E2eModel.ru_born (E2eModel.es_rib2 st) = Some 1%nat /\
+  E2eModel.es_scripts st = [E2eModel.SRejectPfx 7; E2eModel.SRejectPfx 8].
+Proof. exact E2eProofs.e2e_example. Qed.
 
 (* non-vacuity: the packaged example's rib-in-pre filter on two routes, one
    accepted (has OTC) and logged, one rejected, in front of the RIB model *)
